@@ -12,9 +12,9 @@ hand-written models tied to the code by exact ('=') correspondence:
 * the 26.6 fixed-point conversions of util.go / path.go (`fixed_point*`, `scan_rounding*`),
 * the image size and the y flip of `rasterizer.Draw/New` and `Path.ToScanxScanner` (`image_size*`,
   `yflip*`, `yaxis_up`, `canvas_rows`, `flatten_pixel_tol`),
-* a Go-slice aliasing model: `SetColorSpace` as written rewrites the caller's stops whenever the
-  colour space changes any of them (`setColorSpace_aliases`, the full purity statement is false,
-  witness), with the `_partial` purity theorem and the purity of the repaired version,
+* a Go-slice aliasing model: `SetColorSpace` (which copies the stops since 1d02f0f) leaves every
+  slice the caller holds unchanged (`gradients_unchanged`, full strength) and returns the converted
+  stops (`setColorSpace_result`); `append_aliases` records why the copy is needed,
 * draw order of the replay (`draw_order`, `later_covers_earlier`, `untouched`) and the agreement of
   the pixel specification's `owner` with that replay (`owner_replay`),
 * the gradient-units defect as an exact witness.
@@ -169,68 +169,45 @@ theorem flatten_pixel_tol (tol dpmm dev : Rat) (hd : 0 < dpmm) (h : dev ≤ tol 
   have e : tol / dpmm * dpmm = tol := by field_simp
   linarith
 
-/-! ## (c) slice aliasing: SetColorSpace -/
+/-! ## (c) slice aliasing: SetColorSpace leaves the caller's gradient unchanged -/
 
-/-- As written, for a non-linear colour space, the CALLER's stops become the mapped stops. -/
-theorem setColorSpace_aliases {α} (f : α → α) (m : Mem α) (s : Slice)
-    (ha : s.arr < m.length) (hl : s.off + s.len ≤ (m.getD s.arr []).length) :
-    view (setColorSpace false f m s).1 s = (view m s).map f := by
-  simp only [setColorSpace]
-  exact mapInPlace_view f m s ha hl
-
-/-- what the property demands ("leaves … its gradients unchanged") -/
-def gradients_unchanged_statement : Prop :=
-  ∀ (linear : Bool) (f : Nat → Nat) (m : Mem Nat) (s : Slice),
-    s.arr < m.length → s.off + s.len ≤ (m.getD s.arr []).length →
-    view (setColorSpace linear f m s).1 s = view m s
-
-/-- concrete witness: stops [128, 64] in an array of three, colour map +1 -/
-theorem setColorSpace_mutates_witness :
-    view (setColorSpace false (· + 1) [[7, 128, 64]] ⟨0, 1, 2, 2⟩).1 ⟨0, 1, 2, 2⟩ = [129, 65]
-    ∧ view [[7, 128, 64]] ⟨0, 1, 2, 2⟩ = [128, 64] := by decide
-
-theorem gradients_unchanged_statement_false : ¬ gradients_unchanged_statement := by
-  intro h
-  have := h false (· + 1) [[7, 128, 64]] ⟨0, 1, 2, 2⟩ (by decide) (by decide)
-  revert this
-  decide
-
-/-- purity holds for the linear colour space (early return) and whenever the conversion fixes every stop -/
-theorem gradients_unchanged_partial {α} (linear : Bool) (f : α → α) (m : Mem α) (s : Slice)
-    (ha : s.arr < m.length) (hl : s.off + s.len ≤ (m.getD s.arr []).length)
-    (hyp : linear = true ∨ ∀ v ∈ view m s, f v = v) :
-    view (setColorSpace linear f m s).1 s = view m s := by
+/-- "leaves … its gradients unchanged", full strength: whatever the colour space and the conversion,
+every slice header anybody holds into the memory before the call (the receiver's `Stops` in
+particular) shows the same contents afterwards -/
+theorem gradients_unchanged {α} (linear : Bool) (f : α → α) (m : Mem α) (s : Slice) (t : Slice)
+    (ht : t.arr < m.length) :
+    view (setColorSpace linear f m s).1 t = view m t := by
   cases linear with
   | true => simp [setColorSpace]
   | false =>
-    have hf : ∀ v ∈ view m s, f v = v := by
-      cases hyp with
-      | inl h => cases h
-      | inr h => exact h
-    rw [setColorSpace_aliases f m s ha hl]
-    have : (view m s).map f = (view m s).map id := List.map_congr_left (by simpa using hf)
-    simp [this]
+    simp only [setColorSpace, Bool.false_eq_true, if_false]
+    unfold view mapInPlace
+    have hne : t.arr ≠ (copySlice m s).2.arr := by simp only [copySlice]; omega
+    rw [mapInPlaceFrom_getD_other f _ _ hne]
+    simp only [copySlice, getD_append_left _ _ _ ht]
 
-example : ∃ (m : Mem Nat) (s : Slice), s.arr < m.length ∧ s.off + s.len ≤ (m.getD s.arr []).length ∧
-    (∀ v ∈ view m s, (fun x => x) v = v) := ⟨[[1, 2]], ⟨0, 0, 2, 2⟩, by decide, by decide, by simp⟩
+/-- the receiver's own stops, as the special case the property names -/
+theorem gradients_unchanged_receiver {α} (linear : Bool) (f : α → α) (m : Mem α) (s : Slice)
+    (ha : s.arr < m.length) : view (setColorSpace linear f m s).1 s = view m s :=
+  gradients_unchanged linear f m s s ha
 
-/-- the repaired version leaves every existing array untouched (hence every slice the caller or
-anybody else holds) and returns the mapped stops -/
-theorem setColorSpaceFixed_pure {α} (linear : Bool) (f : α → α) (m : Mem α) (s : Slice) (t : Slice)
-    (ht : t.arr < m.length) :
-    view (setColorSpaceFixed linear f m s).1 t = view m t := by
-  cases linear with
-  | true => simp [setColorSpaceFixed]
-  | false =>
-    simp only [setColorSpaceFixed, view, Bool.false_eq_true, if_false]
-    have : (m ++ [(List.take s.len (List.drop s.off (m.getD s.arr []))).map f]).getD t.arr [] = m.getD t.arr [] := by
-      simp [List.getD_eq_getElem?_getD, List.getElem?_append_left ht]
-    rw [this]
+/-- and the returned gradient carries the converted stops (non-linear colour space) … -/
+theorem setColorSpace_result {α} (f : α → α) (m : Mem α) (s : Slice)
+    (hl : s.off + s.len ≤ (m.getD s.arr []).length) :
+    view (setColorSpace false f m s).1 (setColorSpace false f m s).2 = (view m s).map f := by
+  simp only [setColorSpace, Bool.false_eq_true, if_false]
+  have hlen : (view m s).length = s.len := view_length m s hl
+  rw [mapInPlace_view f (copySlice m s).1 (copySlice m s).2]
+  · rw [view_copySlice]
+  · simp [copySlice]
+  · simp only [copySlice, getD_append_new]
+    omega
 
-theorem setColorSpaceFixed_result {α} (f : α → α) (m : Mem α) (s : Slice) :
-    view (setColorSpaceFixed false f m s).1 (setColorSpaceFixed false f m s).2 = (view m s).map f := by
-  simp only [setColorSpaceFixed, view, Bool.false_eq_true, if_false]
-  simp [List.getD_eq_getElem?_getD]
+/-- … or is the receiver itself (linear colour space: early return) -/
+theorem setColorSpace_linear {α} (f : α → α) (m : Mem α) (s : Slice) : setColorSpace true f m s = (m, s) := rfl
+
+example : view (setColorSpace false (· + 1) [[7, 128, 64]] ⟨0, 1, 2, 2⟩).1 ⟨0, 1, 2, 2⟩ = [128, 64]
+    ∧ view (setColorSpace false (· + 1) [[7, 128, 64]] ⟨0, 1, 2, 2⟩).1 (setColorSpace false (· + 1) [[7, 128, 64]] ⟨0, 1, 2, 2⟩).2 = [129, 65] := by decide
 
 /-- Go `append` writes in place when len < cap: a sibling header over the same array sees the write -/
 theorem append_aliases :
